@@ -110,7 +110,7 @@ def replay_file(path):
 def check(prop, mod, a, seed, t0):
     from pyvc import types as T
     T.use_z3_strings(getattr(mod, "USE_Z3_STRINGS", False))
-    eng = Engine(prop)
+    eng = getattr(mod, "ENGINE_CLASS", Engine)(prop)
     mod.build(eng, a.tier)
     if a.only:
         eng.targets = [t for t in eng.targets if a.only in t.name]
